@@ -575,7 +575,7 @@ func initReflect(i *interpreter) {
 		"Size":      newMethod(i.reflectPackage, rtypeType, "Size"),
 		"String":    newMethod(i.reflectPackage, rtypeType, "String"),
 	}
-	for _, n := range []string{"IsVariadic", "Key", "Name", "Comparable", "ConvertibleTo", "AssignableTo", "Implements", "Len", "PkgPath"} {
+	for _, n := range []string{"IsVariadic", "Key", "Name", "Comparable", "ConvertibleTo", "AssignableTo", "Implements", "Len", "PkgPath", "FieldByName"} {
 		i.rtypeMethods[n] = newMethod(i.reflectPackage, rtypeType, n)
 	}
 	i.errorMethods = methodSet{
